@@ -254,4 +254,11 @@ var props = map[string]*propCfg{
 			{Kind: "exec", Name: "race", Mode: "race", Timeout: 40 * time.Minute},
 		},
 	},
+	"C16": {
+		ID: "C16", Level: "model_checking", Exhaustive: true,
+		Rule:        "Lexers.tla models the sanitizer (its lexer state by state, QuoteString) and the string / quoted-identifier / comment scanning of the MySQL-dialect tokenizer (backslash decoding as in scanStringSlow). TLC enumerates every argument string of length <= MaxLen over an adversarial alphabet (quote, backslash, double quote, dash, hash, star, slash, space, a letter, percent, NUL, a two-byte rune, newline, back quote) x templates with placeholders in literal positions - also next to $n inside a string literal containing an escaped quote, a back-quoted identifier, a block comment, a # comment and a -- comment - and checks that the tokens of the sanitized text are the template's tokens with one string literal per placeholder whose decoded content is exactly the argument (Safe), that QuoteString followed by the tokenizer's scanning is the identity, that $0 / missing / unused arguments are errors. Every case is replayed: the real SanitizeSQL output must equal the specification's text, the real parser's AST of the sanitized text must have the shape of the template with a plain literal, and executing it must echo the argument. A driver adds int64, float64, bool and nil arguments and the arity errors. Non-trivial: the argument contains a character that is special for the sanitizer or the tokenizer; distinct = distinct (template, argument).",
+		Assumptions: append([]string{"non-finite floats (NaN, Inf) are outside the claim; []byte and time.Time arguments are not covered"}, baseAssumptions...),
+		Quick:       []legCfg{mc("strings", "MC_C16", "C16_quick.cfg", 15*time.Minute), {Kind: "exec", Name: "kinds", Mode: "kinds", Timeout: 2 * time.Minute}},
+		Thorough:    []legCfg{mc("strings", "MC_C16", "C16_thorough.cfg", 90*time.Minute), mc("deep", "MC_C16", "C16_deep.cfg", 90*time.Minute), {Kind: "exec", Name: "kinds", Mode: "kinds", Timeout: 2 * time.Minute}},
+	},
 }
